@@ -1,0 +1,14 @@
+//go:build !verif
+
+package bytecode
+
+// verifVMState and verifCompilerState are empty unless built with the verif
+// tag, see verif_on.go.
+type (
+	verifVMState       struct{}
+	verifCompilerState struct{}
+)
+
+func (vm *VM) verifTrace(int) {}
+
+func (c *Compiler) verifNoteVar(Symbol) {}
